@@ -188,4 +188,10 @@ EXTRA_PROGRAMS = [
     '{ a; } /=a/g.test(y);',
     'if (b) { c; }\n/=d/.exec(e);',
     'x = function () { return 1; } / 2 / 3;\ny = {b: 1} / 2 / z;',
+    # runs of layout-only chunks (braces, semicolons, newlines with no text token between them), then an empty block
+    '{ a; } {}',
+    '{{{}}}\nx = function () {}; {}',
+    # a prefix ++ / -- statement directly behind the `}` of the previous statement
+    'if (a) { b; } ++c;',
+    'for (;;) {} --d;\ntry {} finally {} ++e;',
 ]
